@@ -334,5 +334,8 @@ theorem nsf_runX (x y : P2P × TLState) (h : XInv x) (h0 : 0 ≤ x.1.nextSpectat
       show 0 ≤ (s1.pushEvent _).nextSpectatorFrame
       have : (s1.pushEvent (Event.disconnected addr)).nextSpectatorFrame = s1.nextSpectatorFrame := rfl
       rw [this, hfn]; exact ih
+    | adopt s s' t now handle addr ep lf hpt hep hrem hl0 hlow hdead hdrop =>
+      show 0 ≤ s'.nextSpectatorFrame
+      rw [P2P.disconnectAt_nsf _ _ _ _ _ hdrop]; exact ih
 
 end Ggrs
